@@ -150,6 +150,10 @@ impl ShareSet {
     pub fn len(&self) -> (n: usize) ensures n == self@.len() { unimplemented!() }
     #[verifier::external_body]
     pub fn insert(&mut self, p: (u16, u16)) -> (b: bool) ensures final(self)@ == old(self)@.insert(p), b == !old(self)@.contains(p) { unimplemented!() }
+    #[verifier::external_body]
+    pub fn contains(&self, p: &(u16, u16)) -> (b: bool) ensures b == self@.contains(*p) { unimplemented!() }
+    #[verifier::external_body]
+    pub fn is_empty(&self) -> (b: bool) ensures b == (self@.len() == 0) { unimplemented!() }
 }
 // E8: `(0..square_width).flat_map(|row| (0..square_width).map(move |col| (row, col))).collect()`: every pair below the width
 #[verifier::external_body]
@@ -183,6 +187,8 @@ impl SamplingFuts {
     pub fn new() -> (r: SamplingFuts) ensures r@ == Seq::<FutInfo>::empty() { unimplemented!() }
     #[verifier::external_body]
     pub fn len(&self) -> (n: usize) ensures n == self@.len() { unimplemented!() }
+    #[verifier::external_body]
+    pub fn is_empty(&self) -> (b: bool) ensures b == (self@.len() == 0) { unimplemented!() }
     #[verifier::external_body]
     pub fn push(&mut self, f: SamplingFut) ensures final(self)@ == old(self)@.push(f.info@) { unimplemented!() }
 }
